@@ -43,7 +43,7 @@ SIGS = [9, 15, 10, 1]   # KILL, TERM, USR1, HUP (all with default disposition "t
 # value universe of returned results: id -> python value (picklable, compared by ==)
 VALUES = {
     0: 0, 1: 1, 2: -7, 3: 'text', 4: '', 5: [1, [2, 3]], 6: {'k': (1, 2)}, 7: 3.5, 8: b'\x00\xff' * 10,
-    9: 'x' * 100000, 10: list(range(3000)), 11: False, 12: (None,), 13: 'x' * 1000000,
+    9: 'x' * 100000, 10: list(range(3000)), 11: False, 12: (None,), 13: 'x' * 1000000, 14: 'x' * 30000000,
 }
 # exception universe: id -> (class name, args)
 EXCS = {
@@ -99,7 +99,7 @@ def gen_case(rng: random.Random, tier: str, kind=None):
     big = tier == 'thorough'
     oc = rng.choice(['ret', 'ret', 'raise', 'raise', 'exit'])
     if oc == 'ret':
-        pool = [None] + [v for v in VALUES if big or v != 13]
+        pool = [None] + [v for v in VALUES if (big or v != 13) and v != 14]
         outcome = ['ret', rng.choice(pool)]
     elif oc == 'raise':
         outcome = ['raise', rng.choice(list(EXCS))]
@@ -152,6 +152,56 @@ def boundary_cases():
     return cases
 
 
+def random_kill_case(rng, tier):
+    """a signal at a moment the harness does not choose: `delay` seconds after start() returned, while the
+    child boots (~0.1-0.3 s), runs its target for `dur` seconds (optionally logging), sends, flushes and
+    exits.  Which phase was hit is not known; the answers must be the table row of *some* phase (or of
+    no kill at all, when the child was already gone)."""
+    oc = rng.choice([['ret', 5], ['ret', 9], ['raise', 3], ['raise', 8], ['exit', 2], ['exit', 4], ['ret', None]])
+    order = list(ACCESSORS)
+    rng.shuffle(order)
+    dur = rng.choice([0.0, 0.02, 0.05])
+    anchor = rng.choice(['start', 'ready', 'ready', 'ready'])
+    delay = rng.uniform(0.0, 0.3) if anchor == 'start' else rng.uniform(0.0, dur + 0.12)
+    return dict(kind='process', outcome=oc, kill=dict(phase='random', sig=rng.choice([9, 9, 15, 10]),
+                                                     delay=round(delay, 4), anchor=anchor),
+                dur=dur, logs=rng.choice([0, 0, 50, 3000]), order=order, early=False,
+                call_first=order[0] in BLOCKING and rng.random() < 0.5, seed=rng.randrange(1 << 30))
+
+
+def flush_kill_case(rng):
+    """SIGKILL aimed at the window in which the child has sent its result and is still flushing a large
+    log backlog (its feeder is then blocked in a pipe write, holding the queue's write lock)"""
+    c = random_kill_case(rng, 'quick')
+    c.update(outcome=['ret', 5], logs=30000, dur=0.0, call_first=False,
+             kill=dict(phase='random', sig=9, delay=round(rng.uniform(0.1, 1.6), 3), anchor='ready'))
+    return c
+
+
+def midmsg_kill_case(rng):
+    """a signal aimed at the middle of a pipe message: the result is 30 MB, the child is
+    killed a few ms after the target has started (the write takes tens of ms): the parent's `recv` then
+    sees the pipe end inside a message"""
+    c = random_kill_case(rng, 'quick')
+    c.update(outcome=['ret', 14], logs=0, dur=0.0, call_first=False,
+             kill=dict(phase='random', sig=rng.choice([9, 15]), delay=round(rng.uniform(0.0, 0.12), 4), anchor='ready'))
+    return c
+
+
+def resolve_phase(case, res):
+    """for a random-moment kill: the phase whose table row equals the observed answers (None if none does);
+    'none' = the child had already exited when the signal was sent"""
+    ans = [(a, r) for a, r in (res.get('answers') or []) if r not in ('SKIPPED',)]
+    # 'none' is always a candidate: a signal sent to a child that has already exited but is not yet reaped (a
+    # zombie) is delivered to nobody; the exit status (own status vs. -sig) tells the two histories apart
+    for ph in (['none'] if res.get('kill_missed') else ['none', 'before', 'during', 'between', 'after']):
+        c = dict(case, kill=None if ph == 'none' else dict(case['kill'], phase=ph))
+        exp = expected_answers(c)
+        if all(exp[a] == r for a, r in ans):
+            return ph
+    return None
+
+
 def heavy_log_case(rng, sig):
     """the child is killed while it floods the log queue (its feeder thread is then most likely in
     the middle of a pipe write, holding the queue's write lock)"""
@@ -163,6 +213,8 @@ def heavy_log_case(rng, sig):
 
 def case_class(case):
     k = case.get('kill')
+    if k and k['phase'] == 'random':
+        return f"process:{case['outcome'][0]}:random-{'term' if k['sig'] == 15 else 'sig'}"
     return (f"{case['kind']}:{case['outcome'][0]}:"
             f"{(k['phase'] + '-' + ('term' if k['sig'] == 15 else 'sig')) if k else 'nokill'}"
             f"{':flood' if case.get('flood') else ''}")
@@ -240,6 +292,18 @@ def monitor(case, res):
     if res.get('infra'):
         return mon
     ans = res.get('answers') or []
+    if case.get('kill') and case['kill']['phase'] == 'random':
+        ph = resolve_phase(case, res)
+        res['resolved_phase'] = ph
+        hung = [a for a, r in ans if r == 'HANG']
+        if hung:
+            mon.append(dict(prop='C12', rule='hang', detail=f'{hung[0]}() did not return within {hang_bound(case)}s after a signal at a '
+                                                            f'random moment; answers {ans}'))
+        elif ph is None:
+            mon.append(dict(prop='C12', rule='answer',
+                            detail=f'signal {case["kill"]["sig"]} {case["kill"]["delay"]}s after start (kill_missed={res.get("kill_missed")}): '
+                                   f'the answers {ans} are not the table row of any kill phase for outcome {case["outcome"]}'))
+        return mon
     exp = expected_answers(case)
     for a, r in ans:
         if r == 'HANG':
@@ -386,6 +450,9 @@ def model_lines(cid, case, res):
         x = EXITS[oc[1]]
         o = 'exit:none' if x is None else (f'exit:int:{x}' if isinstance(x, int) else f'exit:str:{oc[1]}')
     k = case.get('kill')
+    if k and k['phase'] == 'random':
+        ph = res.get('resolved_phase') or 'during'
+        k = None if ph == 'none' else dict(k, phase=ph)
     lines = [f'case {cid} kind={case["kind"]} outcome={o} kill={(k["phase"] + ":" + str(k["sig"])) if k else "none"}']
     for a, r in res.get('early_answers') or []:
         if r == 'ret:n/a':
@@ -421,9 +488,18 @@ def _raise_here(cls, args):
     raise cls(*args)
 
 
-def target(spec, ready, after, phase, flood=0):
+def target(spec, ready, after, phase, flood=0, dur=0.0, logs=0):
     """the worker's target: ends as `spec` says"""
     import threading
+    if phase == 'random':
+        ready.set()
+        if logs:
+            import logging
+            lg = logging.getLogger('rnd')
+            for i in range(logs):
+                lg.warning('%d %s', i, 'z' * 200)
+        if dur:
+            time.sleep(dur)
     if phase == 'during':
         ready.set()
         if flood:
@@ -457,9 +533,9 @@ spec_sig = [9]
 _KEEP = []
 
 
-def target_proc(spec, ready, after, phase, sig, flood=0):
+def target_proc(spec, ready, after, phase, sig, flood=0, dur=0.0, logs=0):
     spec_sig[0] = sig
-    return target(spec, ready, after, phase, flood)
+    return target(spec, ready, after, phase, flood, dur, logs)
 
 
 def _canon_value(case, v):
@@ -515,13 +591,14 @@ def _inner(case):
     phase = case['kill']['phase'] if case.get('kill') else None
     sig = case['kill']['sig'] if case.get('kill') else 9
     tbp = out['tb_problems']
-    if case.get('flood'):
+    if case.get('flood') or case.get('logs'):
         import logging
         logging.getLogger().addHandler(logging.NullHandler())
     if case['kind'] == 'process':
         ready, after = mpm.Event(), mpm.Event()
         w = mpm.Process(target=target_proc if not (case.get('early') and phase is None) else target_proc_go,
-                        args=(case['outcome'], ready, after, phase, sig, case.get('flood', 0)))
+                        args=(case['outcome'], ready, after, phase, sig, case.get('flood', 0), case.get('dur', 0.0),
+                              case.get('logs', 0)))
         mod_wait, mod_asc = mpm.wait, mpm.as_completed
     else:
         ready, after = threading.Event(), threading.Event()
@@ -541,7 +618,22 @@ def _inner(case):
         ec = w.exitcode
         return 'ret:' + ('none' if ec is None else str(ec))
 
-    if case.get('kill'):
+    def send_signal():
+        try:
+            os.kill(w.pid, sig)
+        except ProcessLookupError:
+            out['kill_missed'] = True
+
+    if case.get('kill') and phase == 'random':
+        if case['kill'].get('anchor') == 'ready':
+            ready.wait(60)
+        if not case.get('call_first'):
+            time.sleep(case['kill']['delay'])
+            if w.exitcode is not None:
+                out['kill_missed'] = True       # already gone (and reaped): nothing to signal
+            else:
+                send_signal()
+    elif case.get('kill'):
         if phase == 'during':
             if not ready.wait(60):
                 return dict(out, infra='child never became ready')
@@ -614,8 +706,14 @@ def _inner(case):
         th.start()
         if case.get('call_first') and not out['answers'] and case.get('kill'):
             # the accessor is (most likely) already blocked in the OS-level join when the signal arrives
-            time.sleep(0.05)
-            os.kill(w.pid, sig)
+            time.sleep(case['kill'].get('delay', 0.05))
+            if phase == 'random':
+                if th.is_alive():
+                    send_signal()
+                else:
+                    out['kill_missed'] = True
+            else:
+                os.kill(w.pid, sig)
         th.join(HANG_BOUND)
         if th.is_alive():
             out['answers'].append([a, 'HANG'])
@@ -648,7 +746,7 @@ def target_go(spec, ready, after, phase):
     return target(spec, None, None, None)
 
 
-def target_proc_go(spec, ready, after, phase, sig, flood=0):
+def target_proc_go(spec, ready, after, phase, sig, flood=0, dur=0.0, logs=0):
     return target_go(spec, ready, after, phase)
 
 
